@@ -80,6 +80,17 @@ type config struct {
 	Sources   []*srcPlan   `json:"sources"`
 	Senders   []senderPlan `json:"senders"`
 	FwdComp   string       `json:"forwarder_compression,omitempty"`
+	// FaultFirst (forwarder mode): the upstream reads the whole body of the first POST of every event and answers
+	// it with this status ("503" | "500"); the forwarder's own retry is accepted.
+	FaultFirst string `json:"fault_first_attempt,omitempty"`
+}
+
+// label is the mode as it appears in signatures.
+func (c *config) label() string {
+	if c.FaultFirst != "" {
+		return c.Mode + "-retry"
+	}
+	return c.Mode
 }
 
 var cloudTagPool = []string{"region:us-east-1", "az:b", "env:prod", "service:web", "cluster:é1", "team:→x", "bare"}
@@ -337,17 +348,18 @@ func (a nullAgg) Reset()                     {}
 // scripted instance cache
 
 type fakeCache struct {
-	mu       sync.Mutex
-	plans    map[gostatsd.Source]*srcPlan
-	answered map[gostatsd.Source]bool
-	ipSink   chan gostatsd.Source
-	info     chan gostatsd.InstanceInfo
-	release  chan struct{}
-	mode     string
-	lookups  int
-	misses   int
-	hits     int
-	stray    int
+	mu        sync.Mutex
+	requested map[gostatsd.Source]int // lookups asked for, per address
+	plans     map[gostatsd.Source]*srcPlan
+	answered  map[gostatsd.Source]bool
+	ipSink    chan gostatsd.Source
+	info      chan gostatsd.InstanceInfo
+	release   chan struct{}
+	mode      string
+	lookups   int
+	misses    int
+	hits      int
+	stray     int
 }
 
 func newFakeCache(c *config) *fakeCache {
@@ -421,6 +433,10 @@ func (fc *fakeCache) run(ctx context.Context, rng *rand.Rand) {
 			pending = append(pending, ip)
 			fc.mu.Lock()
 			fc.lookups++
+			if fc.requested == nil {
+				fc.requested = map[gostatsd.Source]int{}
+			}
+			fc.requested[ip]++
 			fc.mu.Unlock()
 		case out <- next:
 			pending = pending[1:]
@@ -448,6 +464,12 @@ type pipeline struct {
 	client   *http.Client
 	series   atomic.Int64
 	backends []*capBackend
+
+	upMu         sync.Mutex
+	upFirst      map[string][]byte // forwarder-retry: body of the first (faulted) attempt per event id
+	upFaults     int
+	upRejected   int      // undecodable bodies answered 400, as the real ingestion endpoint does
+	upBodyDiffer []string // event ids whose retry body differs from the first attempt
 
 	cancelFront, cancelBack context.CancelFunc
 	front, back             sync.WaitGroup
@@ -477,7 +499,7 @@ func decompress(enc string, b []byte) ([]byte, error) {
 }
 
 func buildPipeline(r *mon.Run, cfg *config, seed uint64, gate chan struct{}) (*pipeline, error) {
-	p := &pipeline{cfg: cfg, st: newState(r), in: make(chan []*statsd.Datagram)}
+	p := &pipeline{cfg: cfg, st: newState(r), in: make(chan []*statsd.Datagram), upFirst: map[string][]byte{}}
 	logger := quiet()
 	backCtx, cancelBack := context.WithCancel(context.Background())
 	frontCtx, cancelFront := context.WithCancel(context.Background())
@@ -502,11 +524,40 @@ func buildPipeline(r *mon.Run, cfg *config, seed uint64, gate chan struct{}) (*p
 				err = proto.Unmarshal(raw, &msg)
 			}
 			if err != nil {
+				if cfg.FaultFirst != "" {
+					// what a real ingesting gostatsd does with a body it cannot decode
+					p.upMu.Lock()
+					p.upRejected++
+					p.upMu.Unlock()
+					w.WriteHeader(http.StatusBadRequest)
+					return
+				}
 				st.mu.Lock()
 				st.unknown = append(st.unknown, "undecodable upstream body: "+err.Error())
 				st.mu.Unlock()
 				w.WriteHeader(http.StatusAccepted)
 				return
+			}
+			if cfg.FaultFirst != "" {
+				if id := idOf(msg.GetTitle()); id != "" {
+					p.upMu.Lock()
+					first, seen := p.upFirst[id]
+					if !seen {
+						p.upFirst[id] = body
+						p.upFaults++
+					} else if !bytes.Equal(first, body) {
+						p.upBodyDiffer = append(p.upBodyDiffer, id)
+					}
+					p.upMu.Unlock()
+					if !seen {
+						status := http.StatusServiceUnavailable
+						if cfg.FaultFirst == "500" {
+							status = http.StatusInternalServerError
+						}
+						w.WriteHeader(status)
+						return
+					}
+				}
 			}
 			d := st.enter(0, fields{Title: msg.GetTitle(), Text: msg.GetText(), Date: msg.GetDateHappened(), AggKey: msg.GetAggregationKey(), SrcType: msg.GetSourceTypeName(),
 				Tags: setOf(msg.GetTags()), Source: msg.GetHostname(), Pri: int(msg.GetPriority()), Alert: int(msg.GetType())})
@@ -515,11 +566,15 @@ func buildPipeline(r *mon.Run, cfg *config, seed uint64, gate chan struct{}) (*p
 			w.WriteHeader(http.StatusAccepted)
 		}))
 		pool := transport.NewTransportPool(logger, viper.New())
+		maxElapsed := time.Second
+		if cfg.FaultFirst != "" {
+			maxElapsed = 3 * time.Second // room for the first retry (0.25-0.75 s back-off) and two more
+		}
 		compress, ctype := true, cfg.FwdComp
 		if ctype == "off" {
 			compress, ctype = false, "zlib"
 		}
-		fwd, err := statsd.NewHttpForwarderHandlerV2(logger, "default", p.upstream.URL, 2, 50, 1, compress, ctype, 1+cfg.Index%9, time.Second, time.Hour, nil, nil, pool, statsd.VerifNewFlushCoordinator())
+		fwd, err := statsd.NewHttpForwarderHandlerV2(logger, "default", p.upstream.URL, 2, 50, 1, compress, ctype, 1+cfg.Index%9, maxElapsed, time.Hour, nil, nil, pool, statsd.VerifNewFlushCoordinator())
 		if err != nil {
 			return fail(err)
 		}
@@ -803,9 +858,36 @@ func attrSet(shape string) string {
 }
 
 func (c *checker) execute(i int) outcome {
+	return c.executeCfg(makeConfig(i, c.r.RandGlobal(fmt.Sprintf("cfg%d", i))), "")
+}
+
+// makeRetryConfig: a small forwarder-mode execution whose upstream fails the first attempt of every event.
+func makeRetryConfig(k int) *config {
+	i := 700000 + k
+	c := &config{Index: i, Mode: "forwarder", FwdComp: []string{"off", "zlib", "lz4"}[k%3], FaultFirst: []string{"503", "500"}[(k/3)%2], MaxConc: 1, Parsers: 1 + k%2, Workers: 1, Queue: 1,
+		Cloud: k%4 != 3, Responder: []string{"immediate", "yield", "hold"}[(k/2)%3], Static: []string{"static", "dc:syd"}}
+	c.Sources = []*srcPlan{
+		{Addr: fmt.Sprintf("10.70.%d.1", k%250), Mode: "hit", ID: fmt.Sprintf("i-retry%da", k), Tags: []string{"az:b"}},
+		{Addr: fmt.Sprintf("10.70.%d.2", k%250), Mode: []string{"miss-ok", "neg", "miss-fail"}[k%3], ID: fmt.Sprintf("i-retry%db", k), Tags: []string{"region:us-east-1", "static"}},
+	}
+	for _, s := range c.Sources {
+		s.inst = &gostatsd.Instance{ID: gostatsd.Source(s.ID), Tags: append(gostatsd.Tags{}, s.Tags...)}
+	}
+	c.Senders = []senderPlan{{Via: "udp", Src: 0, N: 2 + k%2}, {Via: "udp", Src: 1, N: 2}, {Via: "http", Src: k % 2, N: 2}}
+	return c
+}
+
+func (c *checker) executeRetry(k int) outcome {
+	return c.executeCfg(makeRetryConfig(k), "fwd-retry")
+}
+
+func (c *checker) executeCfg(cfg *config, kind string) outcome {
 	r := c.r
-	cfg := makeConfig(i, r.RandGlobal(fmt.Sprintf("cfg%d", i)))
+	i := cfg.Index
 	replay := map[string]interface{}{"cfg": i, "config": cfg}
+	if kind != "" {
+		replay["kind"], replay["cfg"] = kind, i-700000
+	}
 	r.Case("execution cfg=%d mode=%s backends=%d maxconc=%d cloud=%v responder=%s senders=%d", i, cfg.Mode, cfg.NBackends, cfg.MaxConc, cfg.Cloud, cfg.Responder, len(cfg.Senders))
 	p, err := buildPipeline(r, cfg, uint64(r.Seed())*1000003+uint64(i), nil)
 	if err != nil {
@@ -854,7 +936,22 @@ func (c *checker) execute(i int) outcome {
 	ws := waitStamp.Load()
 	deliv, unknown, maxInfl := p.st.snapshot()
 	sinks := cfg.sinks()
-	mode := cfg.Mode
+	mode := cfg.label()
+	if cfg.FaultFirst != "" {
+		p.upMu.Lock()
+		r.Event("forwarder_retry_first_attempts_failed_"+cfg.FaultFirst, p.upFaults)
+		r.Event("forwarder_retry_undecodable_attempts", p.upRejected)
+		differ := append([]string(nil), p.upBodyDiffer...)
+		rejected := p.upRejected
+		p.upMu.Unlock()
+		for _, id := range differ {
+			r.Violation("retry-body-differs:"+mode+":"+cfg.FwdComp, fmt.Sprintf("cfg %d (compression %s, first attempt answered %s): the body re-sent for event %s differs from the first attempt's", i, cfg.FwdComp, cfg.FaultFirst, id), replay)
+		}
+		if rejected > 0 {
+			r.Violation("retry-undecodable-body:"+mode+":"+cfg.FwdComp, fmt.Sprintf("cfg %d (compression %s, first attempt answered %s): %d POSTs to /v2/event after a failed first attempt carried a body that cannot be decompressed / unmarshalled (answered 400 as a real ingesting server would)", i, cfg.FwdComp, cfg.FaultFirst, rejected), replay)
+		}
+		r.Event("executions_forwarder_retry", 1)
+	}
 	if n := rc.httpBad.Load(); n > 0 {
 		r.Violation("http-event-not-accepted:"+mode, fmt.Sprintf("cfg %d: %d well-formed protobuf events were not answered 2xx by /v2/event, e.g. %v", i, n, rc.httpMsg.Load()), replay)
 	}
@@ -919,7 +1016,7 @@ func (c *checker) execute(i int) outcome {
 			r.Violation("lookup-for-unknown-address:"+mode, fmt.Sprintf("cfg %d: the cache was asked %d times about an address no sender used", i, stray), replay)
 		}
 	}
-	r.Event("executions_"+mode, 1)
+	r.Event("executions_"+cfg.Mode, 1)
 	r.Event("datagrams", int(rc.sentDG.Load()))
 	if maxInfl > cfg.MaxConc && mode == "backends" {
 		r.Event("executions_exceeding_max_concurrent_events", 1) // not part of the statement; recorded only
@@ -1163,7 +1260,7 @@ func TestCheck(t *testing.T) {
 	r := mon.Start(t, "C19")
 	defer r.Finish()
 	logrus.SetOutput(io.Discard)
-	r.Rule("an execution = one pipeline (DatagramParser x1-4 goroutines -> CloudHandler with a scripted instance cache -> TagHandler with 0-3 static tags -> BackendHandler with 0-4 capturing backends and max-concurrent-events 1-8, or -> HttpForwarderHandlerV2 posting to a capturing upstream; every 7th without cloud stage) fed by 2-7 concurrent senders (datagrams of 1-4 lines in batches of 1-3, mixed with unique metric lines and bad lines; or protobuf EventV2 posts to /v2/event, identity/deflate/lz4) of 10-50 grammar-derived event lines each with a unique id in the title; per sender address the cache scripts hit / negative hit / miss then success / miss then failure, each with and without caching of the answer, answered immediately, after random yields, or only after all senders have returned; backends copy on receipt, yield and spin per call, and fail 1 call in 16. Plus a deterministic script: dispatch cancelled while the only semaphore slot is held, then a dispatch with an already cancelled context, then a live one. Plus forced interleavings: max-concurrent-events 1 or 2, 2-5 backends whose SendEvent blocks until the harness releases it; one DispatchEvent hands the event to the first backends and parks on the semaphore, then WaitForEvents is called on another goroutine (on the BackendHandler, the tag stage or the full chain head) and the backends are released one by one (oldest or newest first) or all held ones at once: at the stamp where WaitForEvents returned every backend must have been handed the event. Non-trivial: an event that was certainly parked for a lookup, or carries >= 3 distinct optional attributes; distinct by (attribute set, lookup outcome, parked, mode, sink count, transport); every interleaving, distinct by (semaphore size, backend count, head, release order, gated set).")
+	r.Rule("an execution = one pipeline (DatagramParser x1-4 goroutines -> CloudHandler with a scripted instance cache -> TagHandler with 0-3 static tags -> BackendHandler with 0-4 capturing backends and max-concurrent-events 1-8, or -> HttpForwarderHandlerV2 posting to a capturing upstream; every 7th without cloud stage) fed by 2-7 concurrent senders (datagrams of 1-4 lines in batches of 1-3, mixed with unique metric lines and bad lines; or protobuf EventV2 posts to /v2/event, identity/deflate/lz4) of 10-50 grammar-derived event lines each with a unique id in the title; per sender address the cache scripts hit / negative hit / miss then success / miss then failure, each with and without caching of the answer, answered immediately, after random yields, or only after all senders have returned; backends copy on receipt, yield and spin per call, and fail 1 call in 16. Plus a deterministic script: dispatch cancelled while the only semaphore slot is held, then a dispatch with an already cancelled context, then a live one. Plus forwarder-mode executions whose upstream reads the body of the FIRST POST of every event and answers 503 / 500, accepting the forwarder's own retry (compression off / zlib / lz4; an undecodable retry is answered 400 as a real ingesting server would): exactly one accepted POST per event with the derivation's fields, retry body identical to the first attempt. Plus server scenarios: the real statsd.Server (standalone, internal statser, 1-3 capturing backends, scripted cache) run through RunWithCustomSocket on a scripted PacketConn; events from cached sources and from sources whose lookup is held (parked), or one event behind token-gated backends; the context is cancelled, then lookups are answered (found / not found) and backends released: every event accepted before the cancellation reaches every backend once, enriched, before RunWithCustomSocket returns, and it does return. Plus forced interleavings: max-concurrent-events 1 or 2, 2-5 backends whose SendEvent blocks until the harness releases it; one DispatchEvent hands the event to the first backends and parks on the semaphore, then WaitForEvents is called on another goroutine (on the BackendHandler, the tag stage or the full chain head) and the backends are released one by one (oldest or newest first) or all held ones at once: at the stamp where WaitForEvents returned every backend must have been handed the event. Non-trivial: an event that was certainly parked for a lookup, or carries >= 3 distinct optional attributes; distinct by (attribute set, lookup outcome, parked, mode, sink count, transport); every interleaving, distinct by (semaphore size, backend count, head, release order, gated set).")
 	r.Assume("the receipt time of an event without d: is judged on the [before send, after DoneFunc] bracket of harness clock readings, in seconds")
 	r.Assume("a hung WaitForEvents / parser is a violation only when the same workload stalls twice (watchdog 20 s)")
 	c := &checker{r: r, stalled: map[string]bool{}}
@@ -1180,6 +1277,10 @@ func TestCheck(t *testing.T) {
 		for k := 0; k < 5; k++ {
 			if rp.Kind == "interleaving" {
 				c.twice("interleaving", rp.Cfg, c.interleave)
+			} else if rp.Kind == "fwd-retry" {
+				c.twice("fwd-retry", rp.Cfg, c.executeRetry)
+			} else if rp.Kind == "server" {
+				c.twice("server", rp.Cfg, c.serverScenario)
 			} else if rp.Script != "" || rp.Kind == "script" {
 				c.twice("script", rp.Cfg, c.cancelScript)
 			} else {
@@ -1201,6 +1302,18 @@ func TestCheck(t *testing.T) {
 	for i := 0; i < nScript; i++ {
 		if r.Mine(i) {
 			c.twice("script", i, c.cancelScript)
+		}
+	}
+	// forwarder mode with an upstream that fails the first attempt of every event (one real back-off each)
+	for k, n := 0, r.Pick(6, 96); k < n; k++ {
+		if r.Mine(k) {
+			c.twice("fwd-retry", k, c.executeRetry)
+		}
+	}
+	// the real statsd.Server: shutdown with events parked for a lookup / nothing parked / slow backends
+	for k, n := 0, r.Pick(24, 480); k < n; k++ {
+		if r.Mine(k) {
+			c.twice("server", k, c.serverScenario)
 		}
 	}
 	// forced interleaving: WaitForEvents from another goroutine while a dispatch is parked on the semaphore
